@@ -1,11 +1,14 @@
 """pyvc.parallel -- run independent work units in forked worker processes and merge their sub-reports."""
 import multiprocessing, os, traceback
+from . import core
 
 _WORK = {}
 def _run(i):
     fn, unit, rep = _WORK['fn'], _WORK['units'][i], _WORK['rep'].sub()
     try:
         fn(rep, *unit)
+    except core.Undecided as e:
+        rep.undecided.append(dict(obligation='work unit %r' % (unit[:5] if isinstance(unit, tuple) else unit,), reason='engine limit: %s' % e))
     except Exception as e:
         rep.errors.append('work unit %r crashed: %s' % (unit[:4] if isinstance(unit, tuple) else unit, traceback.format_exc()[-1500:]))
     return rep.export()
